@@ -45,6 +45,48 @@ CHECKS = {
         "The supplied column has exactly the dtype pandas returned.",
         "3/C05",
     ),
+    "C06": (
+        "exploration",
+        "property-based testing (Hypothesis): generated reforms (scaled group, single leaf, deep copies, cloned rule, user function f+1, rounding base) with a DAG-derived locality oracle (bit-identical outside the dependants) and an aliasing scan of the parameter dictionary",
+        "Each generated reform is simulated next to the baseline for all nodes; every node that does not depend on the reformed group / rule must be bit-identical, copies and clones must change nothing; additionally no mutable object may be shared between two parameter groups.",
+        "Dependants are computed from the code's own DAG; reformed runs that raise are skipped and counted.",
+        "3/C06",
+    ),
+    "C13": (
+        "exploration",
+        "property-based testing (Hypothesis): algebraic factor laws between the four unit variants of every time-suffixed node, commutation with group sums against a reference sum, metamorphic input-unit swap with bit-identical feedback, unit-level converter round trips on generated floats",
+        "All four unit variants of drawn flow nodes are requested together and compared with the documented factors; automatic group sums are compared with a reference math.fsum per group; inputs are supplied in another unit; the twelve converters are checked on generated floats.",
+        "Factors 12, 365.25/7, 365.25; tolerances 1e-12 (conversions) / 1e-9 (simulations).",
+        "3/C13",
+    ),
+    "C15": (
+        "exploration",
+        "property-based testing (Hypothesis): invariant 'one value per group' on every group-suffixed node of the DAG, populations with per-person variation; root cause = most upstream varying node",
+        "Every node with a group suffix is grouped by the matching id column of the same run and must be constant; the evidence counts (stratum, node) pairs for which members really differed in an individual-level ancestor input.",
+        "Two design-level findings are listed in known_findings.json and suppressed by node name only.",
+        "3/C15",
+    ),
+    "C16": (
+        "exploration",
+        "property-based testing (Hypothesis) with an extreme-value generator: finiteness of all float nodes, non-negativity of default targets, table of statutory caps written from named parameters / before-after node pairs",
+        "Extreme populations (zero and 10^4..2*10^6 incomes and wealth, rental losses, ages 0-100, up to ten children) at every stratum; invariants checked on all nodes of one run.",
+        "Caps are sound (never tighter than the statute as implemented in the documented parameters), some are loose.",
+        "3/C16",
+    ),
+    "C17": (
+        "exploration",
+        "property-based testing (Hypothesis): wage sweeps of generated households (one simulation per sweep) with per-person exclusivity invariants and the Kinderzuschlag coverage condition; regime sequences measured",
+        "A drawn household is copied along a wage grid so that the sweep crosses the break-even points of the priority checks; per person the exclusivity of ALG II / Wohngeld / Kinderzuschlag / Grundsicherung, bg-within-wthh and the KiZ coverage condition are checked.",
+        "Invariants are evaluated on nodes of the same run.",
+        "3/C17",
+    ),
+    "C19": (
+        "exploration",
+        "property-based testing (Hypothesis) over configurations x dense wage sweeps incl. exact statutory boundaries +-0.01: monotonicity, zero for marginal employment, constancy above ceilings, continuity at the transition-zone end, employee+employer=total",
+        "For each drawn configuration (east/west, children, age, grid step) and stratum a sweep of up to 18000 wages is simulated in one table and the shape invariants are checked for the four employee contributions.",
+        "Employee not self-employed / retired / privately insured.",
+        "3/C19",
+    ),
     "C07": (
         "exploration",
         "differential testing against an independent reference model of the YAML semantics (exact Fraction schedules) over enumerated change dates, their neighbours, leap days and seeded random days; decorator-derived oracle for rules; within-stratum constancy",
